@@ -151,3 +151,42 @@ func VerifC14_DSOversize() {
 		vReach("over-the-ceiling")
 	}
 }
+
+// VerifC14_DSOwnerCeiling: the library cannot produce a DS for an owner name
+// that does not fit 255 wire octets (its owner buffer is that size), so
+// neither may the direct digest match one.
+//
+//verif:entry tier=quick,thorough
+//verif:expect ds-long-owner-accept-implies-library-produces-a-ds ds-owner-ceiling-cases-run
+//verif:bound owner names of 253, 254, 255, 256, 257 and 300 wire octets (labels of at most 63 octets, letters only); one short valid key; digest types 1, 2, 4; wanted digest = the recording hash's output (the accepting case)
+//verif:outside names with escapes at the ceiling
+func VerifC14_DSOwnerCeiling() {
+	c14Pre = nil
+	c14Digest = vBytes("digest", 64)
+	wireLen := []int{253, 254, 255, 256, 257, 300}[vChoice("owner.wire.octets", 6)]
+	// wire length = sum(len(label)+1) + 1 for the root
+	remaining := wireLen - 1
+	name := ""
+	for remaining > 0 {
+		l := 63
+		if remaining-1 < l {
+			l = remaining - 1
+		}
+		for i := 0; i < l; i++ {
+			name += "a"
+		}
+		name += "."
+		remaining -= l + 1
+	}
+	key := &dns.DNSKEY{Flags: 257, Protocol: 3, Algorithm: 13, PublicKey: c14Alphabet[:8]}
+	key.Hdr = dns.RR_Header{Name: name, Rrtype: dns.TypeDNSKEY, Class: dns.ClassINET, Ttl: 3600}
+	dt := []uint8{1, 2, 4}[vChoice("digestType", 3)]
+	size := map[uint8]int{1: 20, 2: 32, 4: 48}[dt]
+	var lib *dns.DS
+	libPanicked := vTry(func() { lib = key.ToDS(dt) })
+	ours := dsDigestMatches(key, dt, c14Digest[:size])
+	vReach("ds-owner-ceiling-cases-run")
+	if ours {
+		vAssert("ds-long-owner-accept-implies-library-produces-a-ds", !libPanicked && lib != nil)
+	}
+}
